@@ -637,3 +637,25 @@ Proof.
 Qed.
 
 Print Assumptions c04_tsig_within_limit.
+
+(* Regression for the arithmetic finish_signed_ok2 / signed_steps pin down (the seeded defect "signed_len counts the
+   MAC size field twice", + 2): HMAC-SHA256, root key name, no question, BADTIME, limit 90 = 12 + 78: the real
+   reservation (output size 32 -> 78) lets the record in and the finished message is exactly 90 octets long; a
+   reservation 2 octets larger is refused - Truncation, i.e. a spurious TC for a response that fits. *)
+Example c04_signed_len_plus_two_refuted :
+  let hm := fun (a : TsigMsg.alg) (k d : bytes) => repeat 90%N (TsigMsg.output_size a) in
+  let alg : MsgWriter.wname := [[104;109;97;99;45;115;104;97;50;53;54]%N] in
+  let tm : bytes := [0;0;101;83;241;0]%N in
+  match MsgWriter.writer_new (repeat 0%N 90) 90 with
+  | Ok w =>
+    match set_tsig_signed 32 alg [] tm 300 7 18 tm w with
+    | Ok (_, w2) => match finish_signed hm TsigMsg.HmacSha256 [] [] w2 with Ok (len, _) => len = 90 | _ => False end
+    | _ => False
+    end /\
+    match set_tsig_signed 34 alg [] tm 300 7 18 tm w with
+    | Err (MsgWriter.Truncation, _) => True
+    | _ => False
+    end
+  | _ => False
+  end.
+Proof. vm_compute. auto. Qed.
